@@ -57,7 +57,7 @@ PROPS = {
                 "distinct = distinct hash of the sequence of (task, hook point) pairs at which the token changed hands",
         "assumptions": COMMON_ASSUMPTIONS + ["a second future-cancel on an already cancelled future may return either value (the statement does not say)",
                                              "the word 'timeout' in an error message identifies timeout-kind errors"],
-        "must_hit": ["preempt:future.delivered", "preempt:future.body-returned", "preempt:future.cancel.enter", "preempt:future.done-set", "wake:future.deref.ctx", "wake:future.deref.val", "wake:future.deref.err", "fault:creator-deadline"],
+        "must_hit": ["preempt:future.delivered", "preempt:future.body-returned", "preempt:future.cancel.enter", "preempt:future.done-set", "wake:future.deref.ctx", "wake:future.deref.val", "wake:future.deref.err", "fault:creator-deadline", "fault:future-created-under-ended-context"],
         "race": True, "race_share": 0.4,
     },
     "C11": {
